@@ -113,3 +113,44 @@ proof fn lemma_header_pos_inv(hdr: Seq<String>, name: Seq<char>)
 {
     if hdr.len() > 0 { lemma_header_pos_inv(hdr.drop_last(), name); }
 }
+
+// N7 [A-std]: `dst.extend(src.drain(..).map(f))`: f applied to every element of src in order, the results appended to dst; src is left empty
+#[verifier::external_body]
+fn verif_extend_map_drain<A, B, F: FnMut(A) -> B>(dst: &mut Vec<B>, src: &mut Vec<A>, f: F)
+    requires
+        forall|i: int| 0 <= i < old(src)@.len() ==> call_requires(f, (old(src)@[i],)),
+    ensures
+        final(src)@.len() == 0,
+        final(dst)@.len() == old(dst)@.len() + old(src)@.len(),
+        forall|i: int| 0 <= i < old(dst)@.len() ==> #[trigger] final(dst)@[i] == old(dst)@[i],
+        forall|i: int| 0 <= i < old(src)@.len() ==> call_ensures(f, (old(src)@[i],), #[trigger] final(dst)@[old(dst)@.len() + i]),
+{
+    unimplemented!()
+}
+
+proof fn lemma_filter_map_prefix_elems<R>(res: spec_fn(int) -> Option<R>, n: int)
+    ensures forall|k: int| 0 <= k < filter_map_prefix(res, n).len() ==> (exists|i: int| 0 <= i < n && #[trigger] res(i) == Some((#[trigger] filter_map_prefix(res, n)[k])))
+    decreases n
+{
+    if n > 0 {
+        lemma_filter_map_prefix_elems(res, n - 1);
+        let p = filter_map_prefix(res, n - 1);
+        let f = filter_map_prefix(res, n);
+        assert forall|k: int| 0 <= k < f.len() implies (exists|i: int| 0 <= i < n && #[trigger] res(i) == Some((#[trigger] f[k]))) by {
+            if k < p.len() {
+                assert(f[k] == p[k]);
+                let i = choose|i: int| 0 <= i < n - 1 && #[trigger] res(i) == Some(p[k]);
+                assert(res(i) == Some(f[k]));
+            } else {
+                assert(res(n - 1) == Some(f[k]));
+            }
+        }
+    }
+}
+
+impl ParsedTestCase {
+    /// column c of the header is bound by some input or expected index
+    spec fn col_bound(inp: Seq<EntryIndex>, exp: Seq<EntryIndex>, c: int) -> bool {
+        (Cols { inp, exp }).col_is_input(c) || (Cols { inp, exp }).col_is_expected(c)
+    }
+}
